@@ -365,6 +365,22 @@ pub unsafe fn give_terminal_to(gid: i32) -> bool {
     given
 }
 
+fn has_operator_chars(text: &str) -> bool {
+    text.contains(|c| c == '|' || c == '&' || c == '<' || c == '>')
+}
+
+/// Text produced by an expansion is data. Operators are looked for in the
+/// token list after all expansions, so a result that brings in `|`, `&`,
+/// `<` or `>` which the word as written did not contain gets the
+/// double-quote tag (like results containing spaces do).
+fn sep_after_expansion(sep: &str, before: &str, after: &str) -> String {
+    if sep.is_empty() && has_operator_chars(after) && !has_operator_chars(before) {
+        "\"".to_string()
+    } else {
+        sep.to_string()
+    }
+}
+
 fn needs_globbing(line: &str) -> bool {
     let re = Regex::new(r"\*+").expect("Invalid regex ptn");
     re.is_match(line)
@@ -431,7 +447,7 @@ pub fn expand_glob(tokens: &mut types::Tokens) {
     for (i, result) in buff.iter().rev() {
         tokens.remove(*i);
         for (j, token) in result.iter().enumerate() {
-            let sep = if token.contains(' ') { "\"" } else { "" };
+            let sep = if token.contains(' ') || has_operator_chars(token) { "\"" } else { "" };
             tokens.insert(*i + j, (sep.to_string(), token.clone()));
         }
     }
@@ -802,6 +818,7 @@ pub fn expand_env(sh: &Shell, tokens: &mut types::Tokens) {
     }
 
     for (i, text) in buff.iter().rev() {
+        tokens[*i].0 = sep_after_expansion(&tokens[*i].0, &tokens[*i].1, text);
         tokens[*i].1 = text.to_string();
     }
 }
@@ -930,6 +947,39 @@ fn substitute_commands(sh: &mut Shell, text: &str, with_dollar: bool,
     result
 }
 
+/// The word as written, without the text of its `$(...)` and `` `...` `` parts.
+fn strip_substitutions(text: &str) -> String {
+    let mut result = String::new();
+    let mut rest = text;
+    loop {
+        let pos_dollar = rest.find("$(");
+        let pos_dot = rest.find('`');
+        let use_dollar = match (pos_dollar, pos_dot) {
+            (Some(a), Some(b)) => a < b,
+            (Some(_), None) => true,
+            (None, Some(_)) => false,
+            (None, None) => break,
+        };
+        let (start, end) = if use_dollar {
+            let start = pos_dollar.unwrap_or(0);
+            match find_matching_paren(rest, start + 1) {
+                Some(end) => (start, end),
+                None => break,
+            }
+        } else {
+            let start = pos_dot.unwrap_or(0);
+            match rest[start + 1..].find('`') {
+                Some(x) => (start, start + 1 + x),
+                None => break,
+            }
+        };
+        result.push_str(&rest[..start]);
+        rest = &rest[end + 1..];
+    }
+    result.push_str(rest);
+    result
+}
+
 fn do_command_substitution(sh: &mut Shell, tokens: &mut types::Tokens) {
     for idx in 0..tokens.len() {
         let (sep, token) = tokens[idx].clone();
@@ -946,7 +996,9 @@ fn do_command_substitution(sh: &mut Shell, tokens: &mut types::Tokens) {
         if !with_dollar && !with_dot {
             continue;
         }
-        tokens[idx].1 = substitute_commands(sh, &token, with_dollar, with_dot);
+        let text = substitute_commands(sh, &token, with_dollar, with_dot);
+        tokens[idx].0 = sep_after_expansion(&sep, &strip_substitutions(&token), &text);
+        tokens[idx].1 = text;
     }
 }
 
